@@ -306,7 +306,9 @@ def update(
                 old[k],
                 v,
                 priority=priority,
-                defaults=defaults.get(canonical_name(k, defaults)) if defaults else None,
+                defaults=defaults.get(canonical_name(k, defaults))
+                if isinstance(defaults, Mapping)
+                else None,
             )
         else:
             if (
@@ -314,7 +316,7 @@ def update(
                 or k not in old
                 or (
                     priority == "new-defaults"
-                    and defaults
+                    and isinstance(defaults, Mapping)
                     and canonical_name(k, defaults) in defaults
                     and defaults[canonical_name(k, defaults)] == old[k]
                 )
